@@ -167,10 +167,14 @@ pub fn campaign(seed: u64, count: u64, max_ops: u64, cfg: &PhysCfg, ops_path: &s
     let mut ops_out = String::new();
     let mut impl_out = String::new();
     let mut out = Outcome { ops: 0, histories: 0, hist: Default::default(), distinct: Default::default(), violations: vec![] };
-    let pool = ["a", "b", "c", "d", "e", "f", "g", "h"];
+    let plain = ["a", "b", "c", "d", "e", "f", "g", "h"];
+    // names whose UTF-16 length differs from their char count, non-ASCII case pairs, punctuation
+    // between 'Z' and 'a', a 31-unit name: what the directory entry codec has to get right
+    let exotic = ["a", "B", "日本", "𐐀x", "x😀", "éa", "_b", "ǅx", "a name of thirty-one units ...."];
     let cyc = ["t1", "t2"];
     for h in 0..count {
         let mut r = rng.fork();
+        let pool = if r.chance(1, 4) { &exotic[..] } else { &plain[..] };
         let version = if r.chance(1, 2) { "3" } else { "4" };
         let mut real = Real::new();
         let mut model = RefModel::new();
